@@ -151,6 +151,23 @@ class Categorize(Factory, Container):
         """Attempt to get key ``x``, returning an alternative if it does not exist."""
         return self.bins.get(x, default)
 
+
+    def _checkContent(self, other):
+        """Raise ContainerException unless the bins of ``other`` can be merged with the bins of ``self``.
+
+        Bins that exist on both sides are checked when they are added; this covers the bins that exist on one side
+        only (or on neither side yet), which would otherwise be merged silently whatever their type.
+        """
+        if self.value is not None and other.value is not None:
+            self.value + other.value  # the (unfilled) templates must be compatible, at any depth
+            return
+        mine = [v.name for v in self.bins.values()][:1] or [self.value.name if self.value is not None else self.contentType]
+        theirs = [v.name for v in other.bins.values()][:1] or [
+            other.value.name if other.value is not None else other.contentType
+        ]
+        if mine != theirs:
+            raise ContainerException(f"cannot add {self.name}s because their bins differ ({mine[0]} vs {theirs[0]})")
+
     @inheritdoc(Container)
     def zero(self):
         return self._likeSelf(Categorize(self.quantity, self.value))
@@ -166,6 +183,7 @@ class Categorize(Factory, Container):
     @inheritdoc(Container)
     def __add__(self, other):
         if isinstance(other, Categorize):
+            self._checkContent(other)
             out = self._likeSelf(Categorize(self.quantity, self.value))
             out.entries = self.entries + other.entries
             out.bins = {}
